@@ -576,6 +576,8 @@ def close(a, b, extra=0.0):
         return math.isnan(a) and math.isnan(b)
     if math.isinf(a) or math.isinf(b):
         return a == b
+    if abs(a) >= 3.0e38 and abs(b) >= 3.0e38 and (a > 0) == (b > 0):
+        return True     # nan_to_num clamps +-inf to the largest finite value of the dtype (float32 vs float64 run)
     return abs(a - b) <= REL64 * max(abs(a), abs(b)) + ABS64 + extra
 
 
